@@ -25,11 +25,45 @@ RECIPES["C12"] = {
 
 CORE = ["repo:src/set.c", "repo:src/common.c", "repo:src/bitset.c", "env/core_env.c", "env/libc_models.c"]
 
+def _shapes(n):
+    """All binary-tree shapes over in-order indices 0..n-1 as (root, L[], R[])."""
+    def build(lo, hi):  # [lo,hi)
+        if lo >= hi:
+            return [(-1, {})]
+        out = []
+        for r in range(lo, hi):
+            for lroot, lmap in build(lo, r):
+                for rroot, rmap in build(r + 1, hi):
+                    m = {}
+                    m.update(lmap); m.update(rmap)
+                    m[r] = (lroot, rroot)
+                    out.append((r, m))
+        return out
+    res = []
+    for root, m in build(0, n):
+        L = [m[i][0] for i in range(n)] or [-1]
+        R = [m[i][1] for i in range(n)] or [-1]
+        res.append((max(root, 0), L, R))
+    return res
+
+
+def _shape_splits(nmax):
+    out = []
+    for n in range(0, nmax + 1):
+        for k, (root, L, R) in enumerate(_shapes(n)):
+            out.append({"_name": "n%d_s%d" % (n, k), "VP_N": n, "VP_ROOT": root,
+                        "VP_L": ",".join(map(str, L)), "VP_R": ",".join(map(str, R))})
+    return out
+
+
 RECIPES["C19"] = {
     "units": ["src/set.c", "src/common.c"],
     "jobs": [
         {"name": "cmp", "src": ["C19_cmp.c"] + CORE,
          "splits": {"all": [{"CMP_INT": None}, {"CMP_VOIDP": None}, {"CMP_PTR": None}, {"CMP_CHARP": None}]},
          "unwind": 6, "timeout": 300},
+        {"name": "step", "src": ["C19_step.c"] + CORE,
+         "splits": {"quick": _shape_splits(4), "thorough": _shape_splits(6)},
+         "unwind": "VP_N + 3", "timeout": 600, "fp_removal": True},
     ],
 }
